@@ -68,6 +68,10 @@ EX["self"] = ("top.xml", [("top.xml", [E(0, "r", [], [inc("top.xml")])])])
 EX["f1"] = ("top.xml", [
     ("top.xml", [E(0, "r", [], [inc("ok.xml", None, [fb([inc("nope.xml")])])])]),
     ("ok.xml", [E(0, "k")])])
+# 3b. the same with the failing include two ordinary elements deep inside the unused fallback
+EX["f1deep"] = ("top.xml", [
+    ("top.xml", [E(0, "r", [], [inc("ok.xml", None, [fb([E(0, "p", [], [("T", "t"), E(0, "q", [], [inc("nope.xml")])])])])])]),
+    ("ok.xml", [E(0, "k")])])
 # 4. C20-F2: the included root carries its own xml:base
 EX["f2"] = ("top.xml", [
     ("top.xml", [E(0, "r", [], [inc("a/c/d.xml")])]),
